@@ -416,6 +416,27 @@ fn locate(file: &syn::File, d: &Dir) -> Located {
     } else {
         die("template", &format!("line {}: bad container `{}`", d.tline, cont));
     }
+    if ikind == "constmacro" {
+        // R23: a const-table macro invocation `name! { … }` + its macro_rules definition
+        let mut def: Option<Range<usize>> = None;
+        let mut call: Option<Range<usize>> = None;
+        for it in &file.items {
+            if let syn::Item::Macro(m) = it {
+                let r = attrs_start(&m.attrs, br(m.span()).start)..br(m.span()).end;
+                if m.ident.as_ref().map(|i| i == iname).unwrap_or(false) {
+                    def = Some(r);
+                } else if m.mac.path.is_ident(iname) {
+                    call = Some(r);
+                }
+            }
+        }
+        match (def, call) {
+            (Some(dr), Some(cr)) => {
+                return Located { range: dr.start.min(cr.start)..dr.end.max(cr.end), kind: "constmacro", in_trait_impl: false, in_trait: false };
+            }
+            _ => die("anchor-lost", &format!("{}: macro {} (definition + invocation) not found", d.file, iname)),
+        }
+    }
     if found.len() < d.ordinal {
         die(
             "anchor-lost",
@@ -600,6 +621,107 @@ fn process_adt(src: &str, d: &Dir) -> StructOut {
     // drop blank lines left by removed attributes
     let text: String = text.lines().filter(|l| !l.trim().is_empty()).map(|l| format!("{}\n", l)).collect();
     StructOut { text, rules }
+}
+
+/// R23: expand a const-table macro (`frame_types!`, `stream_types!`, `setting_identifiers!`, `codes!`)
+/// exactly as its macro_rules definition says; the definition's shape is checked, not assumed.
+fn process_constmacro(src: &str, d: &Dir) -> StructOut {
+    let name = d.item.split_whitespace().nth(1).unwrap_or("");
+    let f: syn::File = syn::parse_str(src).unwrap_or_else(|e| die("parse-failure", &format!("{}: {}", d.item, e)));
+    let mut def_txt = String::new();
+    let mut call_tokens: Option<proc_macro2::TokenStream> = None;
+    for it in &f.items {
+        if let syn::Item::Macro(m) = it {
+            if m.ident.as_ref().map(|i| i == name).unwrap_or(false) {
+                def_txt = norm(&m.mac.tokens.to_string());
+            } else if m.mac.path.is_ident(name) {
+                call_tokens = Some(m.mac.tokens.clone());
+            }
+        }
+    }
+    let call = call_tokens.unwrap_or_else(|| die("anchor-lost", &format!("{}: invocation not found", d.item)));
+    let mut out = String::new();
+    let mut n = 0;
+    // shape (a): {$($name:ident = $val:expr,)*} => { impl T { $(pub const $name: T = T($val);)* } }
+    let shape_a = {
+        let pre = "{$($name:ident=$val:expr,)*}=>{impl";
+        if def_txt.starts_with(pre) {
+            let rest = &def_txt[pre.len()..];
+            rest.find('{').and_then(|i| {
+                let ty = rest[..i].to_string();
+                let want = format!("{{$(pubconst$name:{t}={t}($val);)*}}}}", t = ty);
+                if rest[i..] == want { Some(ty) } else { None }
+            })
+        } else {
+            None
+        }
+    };
+    // shape (b): codes! — the `impl Code { pub const $name: Code = Code{code: $num}; }` part (Debug/Display impls follow, not extracted)
+    let shape_b = def_txt.starts_with("($($(#[$docs:meta])*($num:expr,$name:ident);)+)=>{implCode{$($(#[$docs])*pubconst$name:Code=Code{code:$num};)+}impl");
+    if let Some(ty) = shape_a {
+        let toks: Vec<proc_macro2::TokenTree> = call.into_iter().collect();
+        let mut i = 0;
+        while i < toks.len() {
+            // NAME = expr-tokens ,
+            let nm = match &toks[i] {
+                proc_macro2::TokenTree::Ident(id) => id.to_string(),
+                t => die("unsupported", &format!("{}: unexpected token {}", d.item, t)),
+            };
+            i += 1;
+            match toks.get(i) {
+                Some(proc_macro2::TokenTree::Punct(p)) if p.as_char() == '=' => {}
+                _ => die("unsupported", &format!("{}: expected `=`", d.item)),
+            }
+            i += 1;
+            let mut val = String::new();
+            while i < toks.len() {
+                if let proc_macro2::TokenTree::Punct(p) = &toks[i] {
+                    if p.as_char() == ',' {
+                        break;
+                    }
+                }
+                let r = br(toks[i].span());
+                let _ = r;
+                val.push_str(&toks[i].to_string());
+                i += 1;
+            }
+            i += 1; // comma
+            let _ = writeln!(out, "    pub const {}: {} = {}({});", nm, ty, ty, val);
+            n += 1;
+        }
+    } else if shape_b {
+        let toks: Vec<proc_macro2::TokenTree> = call.into_iter().collect();
+        for t in toks {
+            if let proc_macro2::TokenTree::Group(g) = &t {
+                if g.delimiter() == proc_macro2::Delimiter::Parenthesis {
+                    let inner: Vec<proc_macro2::TokenTree> = g.stream().into_iter().collect();
+                    // num , NAME
+                    let mut num = String::new();
+                    let mut k = 0;
+                    while k < inner.len() {
+                        if let proc_macro2::TokenTree::Punct(p) = &inner[k] {
+                            if p.as_char() == ',' {
+                                break;
+                            }
+                        }
+                        num.push_str(&inner[k].to_string());
+                        k += 1;
+                    }
+                    let nm = inner.get(k + 1).map(|t| t.to_string()).unwrap_or_else(|| die("unsupported", "codes! entry"));
+                    let _ = writeln!(out, "    pub const {}: Code = Code {{ code: {} }};", nm, num);
+                    n += 1;
+                }
+            }
+        }
+    } else {
+        die("anchor-lost", &format!("{}: macro_rules definition has an unexpected shape: {}", d.item, def_txt));
+    }
+    if n == 0 {
+        die("anchor-lost", &format!("{}: no entries", d.item));
+    }
+    let mut rules = BTreeMap::new();
+    rules.insert("R23".to_string(), n);
+    StructOut { text: out, rules }
 }
 
 /// text of an impl-item const inside an impl: `const X: T = e;`
@@ -878,6 +1000,10 @@ fn main() {
                         (o.text, o.rules, d.item.clone())
                     }
                     "macro" => (format!("{}\n", item_src), BTreeMap::new(), d.item.clone()),
+                    "constmacro" => {
+                        let o = process_constmacro(item_src, &d);
+                        (o.text, o.rules, d.item.clone())
+                    }
                     _ => {
                         let o = process_adt(item_src, &d);
                         (o.text, o.rules, d.item.clone())
